@@ -153,9 +153,11 @@ def run(prop, tier, seed):
         r.update(extra)
         recs.append(r)
     stats = []
-    for name, tunit in (("UnitSquare", 1.0), ("Circle", 1.0), ("LShape", 1.0), ("PiSquare", 4.0)):
+    plan = [(name, tunit, nref) for nref in ((4,) if quick else (3, 6, 10, 14, 18, 24))
+            for name, tunit in (("UnitSquare", 1.0), ("Circle", 1.0), ("LShape", 1.0), ("PiSquare", 4.0))]
+    for name, tunit, nref in plan:
         lay = ParamLayout(name, 1, 12, tunit)
-        mesh = refined_mesh(lay, rng, 4 if quick else 10)
+        mesh = refined_mesh(lay, rng, nref)
         elems = list(mesh.leaf_elements)
         keys = [gkey(e) for e in elems]
         N = len(elems)
